@@ -21,6 +21,10 @@ func c14Extra() []concArg {
 	return []concArg{
 		{Name: "shutdown-while-shrinking", DiskSize: 3000, Setup: big, Clients: [][]fsx.Op{
 			{{K: "REMOVE", H: "root", N: "big"}, {K: "SHUTDOWN"}}, {{K: "GETATTR", H: "root"}}}},
+		{Name: "crash-while-shrinking", DiskSize: 3000, Setup: big, Clients: [][]fsx.Op{
+			{{K: "REMOVE", H: "root", N: "big"}, {K: "SRVCRASH"}}, {{K: "GETATTR", H: "root"}}}},
+		{Name: "crash-while-helping-to-shrink", DiskSize: 3000, Setup: big, Clients: [][]fsx.Op{
+			{{K: "SETATTR", H: "root/big", Size: 3 * 4096}, {K: "SRVCRASH"}}, {{K: "WRITE", H: "root/big", Off: 0, Cnt: 10, Pat: 0x34, Stable: 2}}}},
 		{Name: "stats-during-rpcs", DiskSize: 3000, Setup: []fsx.Op{{K: "CREATE", H: "root", N: "a"}}, Clients: [][]fsx.Op{
 			{{K: "STATS"}}, {{K: "GETATTR", H: "root/a"}, {K: "WRITE", H: "root/a", Off: 0, Cnt: 10, Pat: 1, Stable: 2}}, {{K: "LOOKUP", H: "root", N: "a"}}}},
 	}
@@ -42,7 +46,7 @@ func C14(r *report.Report, tier string) {
 	defer func() { ExploreWorkers = par.Options{} }()
 	r.Only = map[string]bool{"C14": true}
 	hs := append(concHarnesses(), c14Extra()...)
-	r.Rule = fmt.Sprintf("the %d C03 harnesses plus shutdown-while-shrinking and statistics-during-RPCs, every schedule with <=%d deviations, executed in a -race build in which the scheduler hands control between goroutines through a //go:norace spin on a plain word (no happens-before edge of its own): the race detector then sees exactly the program's synchronisation (its mutexes, goroutine creation, atomics) and judges each execution; a report counts if both access stacks lie in go-nfsd/go-journal code. distinct_nontrivial = distinct observable outcomes over all harnesses", len(hs)-2, bound)
+	r.Rule = fmt.Sprintf("the %d C03 harnesses plus shutdown / Crash() while a shrinker runs or a request helps it, and statistics during RPCs, every schedule with <=%d deviations, executed in a -race build in which the scheduler hands control between goroutines through a //go:norace spin on a plain word (no happens-before edge of its own): the race detector then sees exactly the program's synchronisation (its mutexes, goroutine creation, atomics) and judges each execution; a report counts if both access stacks lie in go-nfsd/go-journal code. distinct_nontrivial = distinct observable outcomes over all harnesses", len(hs)-len(c14Extra()), bound)
 	var sums []*ExploreSummary
 	for hi, h := range hs {
 		fairShare(hi, len(hs))
